@@ -267,7 +267,9 @@ def run(ctx):
             coords = " ".join(rat(x) for x in tgt[f, selA].ravel()) + " " + " ".join(rat(x) for x in ref[frame, selB].ravel())
             if n <= 300 or (n <= 5000 and rng.random() < 0.3):
                 reqs.append("qcp %d %s %s %s" % (n, rat(r[f] ** 2), rat(max(tol, 1e-12) * n / 2), coords))
-                meta.append((k, f, desc, rp, r[f], rm, gaprel < 4e-3))
+                # the lower half of the certificate (P(lo) <= 0) says something only while the budget interval, tol * n / 2 in units of lambda, stays
+                # clear of the second root, i.e. of the eigenvalue gap
+                meta.append((k, f, dict(desc, _dbg="gaprel=%.3g tol=%.3g gap=%.4g" % (gaprel, tol, gap)), rp, r[f], rm, gaprel < 4e-3 or max(tol, 1e-12) * n / 2 >= 0.8 * gap))
             # superpose checks
             if sup is not None:
                 X0 = tgt[f].astype(np.float64); X1 = sup[f]
@@ -297,7 +299,7 @@ def run(ctx):
                 # model rotation
                 if n <= 64 and not degenerate:
                     rreqs.append("qrot %d %s %s" % (n, rat(lam), coords))
-                    rmeta.append((k, f, desc, rp, X0, X1, selA, ref[frame, selB].astype(np.float64), size, coord_eps))
+                    rmeta.append((k, f, desc, rp, X0, X1, selA, ref[frame, selB].astype(np.float64), size, coord_eps + 2e-5 * size / max(gaprel, 1e-3)))     # the eigenvector (rotation) error grows like 1 / gap
         if sup is not None and (not np.array_equal(ts.time, np.arange(nfr) * 2.0)):
             viol("superpose|time", "superpose changed the time stamps", rp)
         # zero against itself, symmetry, rigid motion
@@ -364,8 +366,8 @@ def run(ctx):
             ctx.count("upper-only certificates (eigenvalue gap below the budget)")
         ok = (degenerate or s[0] in "-0") and s[1] == "+" and s[2] in "+0" and s[3] in "+0" and s[4] in "+0"
         if not ok:
-            ctx.broke("correspondence:qcp-root", "case %d frame %d (%s, n=%d): rmsd %.7g (oracle %.7g) is not within the budget of the largest root of the model's polynomial: signs P(lo),P(hi),P'(hi),P''(hi),hi = %s" % (
-                k, f, desc["kind"], desc["n_atoms"], rimpl, rm, " ".join(s)))
+            ctx.broke("correspondence:qcp-root", "case %d frame %d (%s, n=%d): rmsd %.7g (oracle %.7g) is not within the budget of the largest root of the model's polynomial: signs P(lo),P(hi),P'(hi),P''(hi),hi = %s [%s]" % (
+                k, f, desc["kind"], desc["n_atoms"], rimpl, rm, " ".join(s), desc.get("_dbg")))
     # ---- model: rotation
     model = ctx.driver.query(rreqs) if ctx.driver_ok and rreqs else [None] * len(rreqs)
     for (k, f, desc, rp, X0, X1, selA, Bsel, size, coord_eps), m in zip(rmeta, model):
